@@ -18,6 +18,7 @@ import (
 	"fmt"
 	"os"
 	"strings"
+	"time"
 
 	"golang.org/x/net/idna"
 )
@@ -232,4 +233,107 @@ func DomainToASCII(s string) (string, bool) {
 		return "", false
 	}
 	return a, true
+}
+
+// ---- batch replay (native only) ---------------------------------------------------
+
+// Outcome of one native replay.
+type Outcome struct {
+	I        int      `json:"i"`
+	Harness  string   `json:"harness"`
+	Outcome  string   `json:"outcome"` // ok | fail | panic | mismatch | assume | hang | nohrn
+	Msg      string   `json:"msg,omitempty"`
+	Observed []string `json:"observed,omitempty"`
+	Failed   []string `json:"failed,omitempty"`
+	Knowns   []string `json:"knowns,omitempty"`
+	Covered  []string `json:"covered,omitempty"`
+}
+
+// RunOne replays one witness (a JSON replay record) against the registry.
+func RunOne(i int, raw []byte, reg map[string]func(), timeout time.Duration) Outcome {
+	out := Outcome{I: i}
+	name, err := LoadValues(raw)
+	if err != nil {
+		out.Outcome = "mismatch"
+		out.Msg = "bad replay record: " + err.Error()
+		return out
+	}
+	out.Harness = name
+	fn, ok := reg[name]
+	if !ok {
+		out.Outcome = "nohrn"
+		out.Msg = "harness not registered: " + name
+		return out
+	}
+	done := make(chan Outcome, 1)
+	go func() {
+		o := Outcome{I: i, Harness: name, Outcome: "ok"}
+		defer func() {
+			if r := recover(); r != nil {
+				switch e := r.(type) {
+				case ReplayMismatch:
+					o.Outcome = "mismatch"
+					o.Msg = e.Msg
+				case AssumeViolated:
+					o.Outcome = "assume"
+				default:
+					o.Outcome = "panic"
+					o.Msg = fmt.Sprint(r)
+				}
+			}
+			o.Observed = Observed
+			o.Failed = Failed
+			o.Knowns = Knowns
+			o.Covered = Covered
+			if o.Outcome == "ok" && len(Failed) > 0 {
+				o.Outcome = "fail"
+				o.Msg = Failed[0]
+			}
+			done <- o
+		}()
+		fn()
+	}()
+	select {
+	case o := <-done:
+		return o
+	case <-time.After(timeout):
+		out.Outcome = "hang"
+		out.Msg = "no result within " + timeout.String()
+		return out
+	}
+}
+
+// RunBatch replays every record (one JSON object per line) of the file named by
+// $VERIF_REPLAY_BATCH and prints one "REPLAY {json}" line per record.
+func RunBatch(reg map[string]func()) error {
+	path := os.Getenv("VERIF_REPLAY_BATCH")
+	if path == "" {
+		return fmt.Errorf("VERIF_REPLAY_BATCH not set")
+	}
+	b, err := os.ReadFile(path)
+	if err != nil {
+		return err
+	}
+	timeout := 20 * time.Second
+	if v := os.Getenv("VERIF_REPLAY_TIMEOUT_S"); v != "" {
+		var n int
+		fmt.Sscanf(v, "%d", &n)
+		if n > 0 {
+			timeout = time.Duration(n) * time.Second
+		}
+	}
+	for i, line := range strings.Split(string(b), "\n") {
+		line = strings.TrimSpace(line)
+		if line == "" {
+			continue
+		}
+		o := RunOne(i, []byte(line), reg, timeout)
+		js, _ := json.Marshal(o)
+		fmt.Printf("REPLAY %s\n", js)
+		if o.Outcome == "hang" {
+			// the hung goroutine still owns the replay state: stop here
+			return fmt.Errorf("hang in record %d", i)
+		}
+	}
+	return nil
 }
